@@ -20,6 +20,8 @@ type CensusEntry struct {
 }
 
 // census: every lint.Register*Lint call in the non-test sources of v3/lints (build constraints honoured)
+var excludedLintFiles []string
+
 func census() (entries []CensusEntry, lintDirs []string, noNameLit []string, blankImports []string, err error) {
 	root := filepath.Join(repoDir(), "v3", "lints")
 	dirs := map[string]bool{}
@@ -28,6 +30,12 @@ func census() (entries []CensusEntry, lintDirs []string, noNameLit []string, bla
 			return nil
 		}
 		if ok, _ := build.Default.MatchFile(filepath.Dir(path), filepath.Base(path)); !ok {
+			// a file the default build leaves out (a //go:build line, or a file name that happens to end in _<os> or
+			// _<arch> such as _js.go, _windows.go, _arm.go): a lint defined there never registers
+			if src, rerr := os.ReadFile(path); rerr == nil && strings.Contains(string(src), "lint.Register") {
+				rel, _ := filepath.Rel(filepath.Join(repoDir(), "v3"), path)
+				excludedLintFiles = append(excludedLintFiles, rel)
+			}
 			return nil
 		}
 		fset := token.NewFileSet()
@@ -137,6 +145,10 @@ func init() {
 			return err
 		}
 		out.Data["census"] = ents
+		out.Data["lint_files_excluded_from_build"] = excludedLintFiles
+		for _, f := range excludedLintFiles {
+			out.Violate("C12|lint-file-not-built:"+f, "the lint source file "+f+" registers a lint but is excluded from the default build (build constraint or a file name ending in _<os>/_<arch>): its lint is never registered", f, "compiled and registered", "skipped by the Go tool")
+		}
 		out.Data["lint_dirs"] = dirs
 		out.Data["census_without_name_literal"] = noLit
 		out.Data["blank_imports"] = blanks
